@@ -16,6 +16,19 @@ def failing_inputs(rng, mode, w, h):
     out.append(("no-start-code", bytes([0x55, 0xAA, 0x55, 0xAA, 0x12])))
     out.append(("truncated-header", gb[:3]))
     out.append(("truncated-block-data", gb[:max(6, len(gb) * 2 // 3)]))
+    # failures at prediction depth, after the whole macroblock layer has been parsed: pictures of another size than the
+    # decoder's reference - a complete predicted picture, and an INTRA picture whose data ends right after its header or
+    # inside its first macroblock (the missing macroblocks count as predicted, which the other-size reference cannot serve)
+    ow, oh = (w + 16, h) if w <= 48 else (w - 16, h)
+    if mode == "std":
+        ow, oh = max(4, (ow + 3) // 4 * 4), max(4, (oh + 3) // 4 * 4)
+    other_p, _ = picgen.gen_picture(rng, mode, "P", ow, oh, stuffing_p=0, sparse=8)
+    out.append(("other-size-predicted", other_p.to_bytes()))
+    other_i, _ = picgen.gen_picture(rng, mode, "I", ow, oh, stuffing_p=0, sparse=8)
+    hdr_bits = len(picgen.header_bits(mode, "I", 3, ow, oh, 5))
+    ob = other_i.to_bytes()
+    out.append(("other-size-intra-header-only", ob[:(hdr_bits + 7) // 8]))
+    out.append(("other-size-intra-cut-in-first-macroblock", ob[:(hdr_bits + 7) // 8 + 1]))
     if mode != "std":
         # reserved size code / reserved picture type
         out.append(("reserved-format", S.sorenson_header(0, 1, (16, 16), "I", 0, 5, size_code=7).to_bytes() + rng.bytes(8)))
